@@ -104,3 +104,19 @@ for nm, n, tier, exp in (('sig.single6', 6, 'quick', 300), ('sig.single7', 7, 't
                       functions=[dict(name='dbus_signature_validate_single', file='dbus/dbus-signature.c', status='bounded'),
                                  dict(name='dbus_signature_iter_init/_get_current_type/_next', file='dbus/dbus-signature.c', status='bounded', note='real code inlined')],
                       assumptions=['dbus-list behaves as a LIFO stack of integers in the signature validator (stub, not verified)']))
+
+UNITS.append(dict(name='C16.sig.depth', props=['C16', 'C01', 'C10'], kind='P', route='hybrid', entry='harness',
+                  tus=[dict(file=VAL, include_as='VERIF_TU', overlay='validate_signature.ovl'), dict(file=STR), dict(file='dbus/dbus-signature.c')],
+                  harness='harness/c16_sig_depth.c', extra_sources=[ASSERT],
+                  replace_calls={'_dbus_list_append': 'verif_stub_list_append', '_dbus_list_pop_last': 'verif_stub_list_pop_last', '_dbus_list_clear': 'verif_stub_list_clear'},
+                  allow_skip_msg=True, timeout=1200, expect_s=60,
+                  must_have=['Check invariant after step for loop _dbus_validate_signature_with_reason', 'sig.alphabet'],
+                  functions=[dict(name='_dbus_validate_signature_with_reason', file=VAL, status='enforced', contract='depth/stack arithmetic, alphabet, length limit, termination; any length (loop contract)'),
+                             dict(name='_dbus_list_append/_pop_last/_clear', file='dbus/dbus-list.c', status='stub', note='counting stub: depth only, popped value arbitrary')],
+                  assumptions=['element counts popped from the stack are arbitrary values in [0,255] (abstraction; a count grows by at most one per processed byte and at most 255 bytes are processed): acceptance of a signature is not decided by this unit']))
+
+eq('find.utf8', 7, '_dbus_string_validate_utf8', 5, 'quick', role='finder')
+for _u in UNITS:
+    if _u['name'] in ('C16.utf8.n64', 'C16.utf8'):
+        _u['finder'] = 'C16.find.utf8'
+eq('b6.utf8', 7, '_dbus_string_validate_utf8', 6, 'thorough', expect_s=120)
